@@ -242,9 +242,10 @@ def madd (A B : DMat n n R) : DMat n n R := DMat.ofMatrix (A.toMatrix + B.toMatr
 def msub (A B : DMat n n R) : DMat n n R := DMat.ofMatrix (A.toMatrix - B.toMatrix)
 def mzero : DMat n n R := DMat.ofMatrix 0
 
-/-- `Representation._differential(word, generator)` for a `parse_simple` representation:
+/-- `Representation._differential(word, generator)` (repaired: the Fox derivative is taken of
+the *parsed* word, so it works for one-character and for multi-character generator names):
 ```
-word_diff = fox_word_derivative(generator, word)
+word_diff = fox_word_derivative(generator, tuple-or-str(self.parse_word(word)))
 matrix_diff = [coeff * self._word_value(word) for word, coeff in word_diff.items()]
 if len(matrix_diff) == 0: return zeros
 return np.sum(matrix_diff, axis=0)
